@@ -747,6 +747,10 @@ ExitStatus Builder::Build(string* err) {
         }
 
         if (!StartEdge(edge, err)) {
+          // The edge never became active, so Cleanup() will not release the
+          // job slot FindWork() acquired for it.
+          if (jobserver_.get())
+            jobserver_->Release(std::move(edge->job_slot_));
           Cleanup();
           status_->BuildFinished();
           return ExitFailure;
